@@ -881,6 +881,50 @@ pub fn run_c16(ctx: &Ctx) -> Report {
                 rep.violate(viol("C16", "E1-exported-ids-in-use-after-restore", "malformed=1", format!("after restore of a malformed export id {} of a stored packet is free", id), json!({}), (2, i)));
             }
         }
+        // the entries that were kept are a session like any other: resumed, retransmitted, and their acknowledgements
+        // are accepted and release their ids (the skipped entries must not have touched the bookkeeping of the kept ones)
+        if st.is_empty() {
+            return;
+        }
+        let as_client = role != Role::Server;
+        let connect = Pkt::Connect { ver, clean: false, keep_alive: 0, client_id: b"c".to_vec(), will: None, user: None, pass: None, props: if ver == Ver::V5 { vec![p_u32(P_SEI, 50)] } else { vec![] } };
+        let connack = Pkt::Connack { ver, sp: true, code: 0, props: vec![] };
+        let evs = if as_client {
+            let _ = c.send(&connect, Via::Dynamic);
+            c.recv(&rc::encode(&connack, idw)).map(|x| x.0).unwrap_or_default()
+        } else {
+            let _ = c.recv(&rc::encode(&connect, idw));
+            match c.send(&connack, Via::Dynamic) {
+                Ok(SendOutcome::Events(e)) => e,
+                _ => vec![],
+            }
+        };
+        rep.hit("E5-kept-entries-of-a-malformed-export-resume-normally");
+        let resent: Vec<Pkt> = evs.iter().filter_map(|e| if let Ev::Send { pkt, .. } = e { Some(pkt.clone()) } else { None }).filter(|p| !matches!(p, Pkt::Connack { .. })).collect();
+        if resent != st {
+            rep.violate(viol("C16", "E5-kept-entries-of-a-malformed-export-resume-normally", "what=resend", format!("export {:?}: kept {:?} but retransmitted {:?}", ps.iter().map(|p| p.short()).collect::<Vec<_>>(), st.iter().map(|p| p.short()).collect::<Vec<_>>(), resent.iter().map(|p| p.short()).collect::<Vec<_>>()), json!({}), (2, i)));
+            return;
+        }
+        for p in &st {
+            let acks: Vec<Pkt> = match p {
+                Pkt::Publish { qos: 1, id: Some(id), .. } => vec![Pkt::Ack { ver, kind: AckKind::Puback, id: *id, code: None, props: None }],
+                Pkt::Publish { qos: 2, id: Some(id), .. } => vec![Pkt::Ack { ver, kind: AckKind::Pubrec, id: *id, code: if ver == Ver::V5 { Some(0x80) } else { None }, props: None }],
+                Pkt::Ack { kind: AckKind::Pubrel, id, .. } => vec![Pkt::Ack { ver, kind: AckKind::Pubcomp, id: *id, code: None, props: None }],
+                _ => vec![],
+            };
+            for a in acks {
+                // (a v3.1.1 PUBREC continues the exchange: the id is released by the PUBCOMP that follows the PUBREL)
+                let releases = !(ver == Ver::V311 && matches!(a, Pkt::Ack { kind: AckKind::Pubrec, .. }));
+                let evs = c.recv(&rc::encode(&a, idw)).map(|x| x.0).unwrap_or_default();
+                let id = a.id().unwrap_or(0);
+                let refused = evs.iter().any(|e| e.is_error());
+                let released = evs.iter().any(|e| matches!(e, Ev::Released(x) if *x == id));
+                if refused || (releases && !released) {
+                    rep.violate(viol("C16", "E5-kept-entries-of-a-malformed-export-resume-normally", &format!("what=ack;refused={};released={}", refused, released), format!("export {:?}: {} for the kept {} gave {}", ps.iter().map(|p| p.short()).collect::<Vec<_>>(), a.short(), p.short(), evs_short(&evs)), json!({}), (2, i)));
+                    return;
+                }
+            }
+        }
     });
     total.merge(r2);
     total.assumptions.push("an exchange between PUBREC and PUBCOMP whose PUBREL was not yet handed to send() is not part of the export (nothing to store yet); histories crashed in that window are compared only through the monitors on the restored object".into());
